@@ -180,12 +180,11 @@ pub fn into_tokens(c: char, it: &mut Peekable<Chars>, state: &mut State) -> LexR
                     break;
                 }
                 string.push(c);
+                if build_cur_expr > 0 {
+                    cur_expr.push(c); // also if escaped, else what follows is shifted
+                }
 
                 if !back_slash {
-                    if build_cur_expr > 0 {
-                        cur_expr.push(c);
-                    }
-
                     if c == '{' {
                         if build_cur_expr == 0 {
                             // position of first character after the opening bracket
